@@ -229,7 +229,7 @@ Definition no_tie (qts : list str) (wss : list service) : Prop :=
 Definition jsr_key (path : str) (root : str) : option (nat * nat * nat) :=
   let pe := path_expression root in
   match jsr_match O (pe_toks pe) path with
-  | Some (caps, _) => Some (S (S (List.length caps)), pe_literal pe, pe_vars pe)
+  | Some (caps, _) => Some (S (S (List.length caps)) + pe_groups pe, pe_literal pe, pe_vars pe)
   | None => None
   end.
 
